@@ -802,7 +802,15 @@ impl RefCas {
             v.push(Op::Reopen);
             for i in 0..NB {
                 if self.held.contains_key(&i) {
-                    for k in CKS {
+                    // every kind on the tiers themselves; under the index (whose view of a
+                    // damaged blob is "absent" whatever the damage) one of each class: content
+                    // damaged, other valid blob swapped in, file gone
+                    let kinds: &[Ck] = if subject.retention() {
+                        &[Ck::Flip, Ck::Append, Ck::Swap, Ck::Delete]
+                    } else {
+                        &CKS
+                    };
+                    for &k in kinds {
                         if let Some(d) = damaged(i, k) {
                             // skip a "corruption" that would leave the file as it is
                             if d.as_ref() != self.held.get(&i) {
